@@ -60,7 +60,7 @@ def make_classes():
         def __init__(self, mode="decision", learn=True, kind="col"):
             self.mode = mode
             self.learn = learn
-            self.kind = kind      # col: a feature column; neg: its negation; const: constant
+            self.kind = kind      # col: a feature column; neg: its negation; const: constant; col32 / colint: the column as float32 / int64
 
         def fit(self, X, y):
             ids = [int(v) for v in X[:, 0]]
@@ -74,6 +74,10 @@ def make_classes():
             if self.kind == "const":
                 return np.zeros(X.shape[0])
             s = np.asarray(X[:, self.col_], dtype=float)
+            if self.kind == "col32":      # an estimator whose decision values are float32 (additive kinds, C11 review)
+                return s.astype(np.float32)
+            if self.kind == "colint":     # ... or integers
+                return s.astype(np.int64)
             return -s if self.kind == "neg" else s
 
         def __getattr__(self, name):
